@@ -24,15 +24,23 @@ package tracer
 // add: appends exactly one entry to the log; touches only builder / trace state and the
 // event's own index and offset fields.
 //@ func (*builder).add
-//@   trusted
-//@   //# (verified against its own code under C16; here its effect on the ghost log is what matters)
+//@   //# the ghost log (ev*) is defined by these assumed postconditions: it IS the sequence of add calls;
+//@   //# what add does to the builder and the collector is verified (C16), see zz_tracer_verif.go
 //@   requires b != nil && event != nil
-//@   modifies evN, evKind, evLen, evEnv, builder.*, RequestBodyData.MessageIndex, ResponseBodyData.MessageIndex, eventOffset.*, []Event, http.Request.*
-//@   ensures evN[b] == old(evN[b]) + 1
-//@   ensures evKind[b] == old(evKind[b])[old(evN[b]) := evKindOf(event)]
-//@   ensures evLen[b] == old(evLen[b])[old(evN[b]) := evLenOf(event)]
-//@   ensures evEnv[b] == old(evEnv[b])[old(evN[b]) := evEnvOf(event)]
-//@   ensures forall o *builder :: o != b ==> evN[o] == old(evN[o]) && evKind[o] == old(evKind[o]) && evLen[o] == old(evLen[o]) && evEnv[o] == old(evEnv[o])
+//@   requires typeis(event, *ResponseError) ==> unbox(event, *ResponseError) != nil && unbox(event, *ResponseError).Err != nil //# middleware only reports non-nil transport errors
+//@   requires wfEvent(event)
+//@   modifies ghosts:cpl*, held @ b.mu, evN, evKind, evLen, evEnv, builder.*, RequestBodyData.MessageIndex, ResponseBodyData.MessageIndex, eventOffset.*, []Event, http.Request.*, Trace.*
+//@   assume_ensures evN[b] == old(evN[b]) + 1
+//@   assume_ensures evKind[b] == old(evKind[b])[old(evN[b]) := evKindOf(event)]
+//@   assume_ensures evLen[b] == old(evLen[b])[old(evN[b]) := evLenOf(event)]
+//@   assume_ensures evEnv[b] == old(evEnv[b])[old(evN[b]) := evEnvOf(event)]
+//@   assume_ensures forall o *builder :: o != b ==> evN[o] == old(evN[o]) && evKind[o] == old(evKind[o]) && evLen[o] == old(evLen[o]) && evEnv[o] == old(evEnv[o])
+//@   ensures !held[b.mu]
+//@   ensures @ignored atlock(b.trace.TestName) == "" ==> cplN == old(cplN) && b.trace.TestName == "" && b.trace.Events == atlock(b.trace.Events)
+//@   ensures @recorded atlock(b.trace.TestName) != "" && !finishes(event) ==> cplN == old(cplN) && b.trace.TestName == atlock(b.trace.TestName) &&
+//@        len(b.trace.Events) == atlock(len(b.trace.Events)) + 1 && b.trace.Events[len(b.trace.Events) - 1] == event
+//@   ensures @completed atlock(b.trace.TestName) != "" && finishes(event) ==> cplN[b.collector] == old(cplN[b.collector]) + 1 && cplName[b.collector] == atlock(b.trace.TestName) &&
+//@        len(cplEvents[b.collector]) == atlock(len(b.trace.Events)) + 1 && cplEvents[b.collector][len(cplEvents[b.collector]) - 1] == event && b.trace.TestName == "" && len(b.trace.Events) == 0
 
 // Representation invariant of the envelope state machine (stream protocols): either between
 // envelopes / inside a prefix (fewer than 5 prefix bytes buffered, nothing else pending) or inside
@@ -49,7 +57,7 @@ package tracer
 //@   requires wfTracer(d) && d.isStreamProtocol && held[d.mu] && d.expecting == 0 && len(data) > 0
 //@   requires slicebase(data) != slicebase(d.prefix) //# the tracer's private prefix buffer is not the caller's buffer
 //@   modifies dataTracer.prefix, dataTracer.env, dataTracer.expecting, dataTracer.endStream, []byte, Envelope.*, bufContent,
-//@            evN, evKind, evLen, evEnv, builder.*, RequestBodyData.*, ResponseBodyData.*, eventOffset.*, []Event, http.Request.*
+//@            ghosts:cpl*, held, Trace.*, evN, evKind, evLen, evEnv, builder.*, RequestBodyData.*, ResponseBodyData.*, eventOffset.*, []Event, http.Request.*
 //@   ensures wfTracer(d) && held[d.mu]
 //@   ensures @ownbuffer slicebase(d.prefix) == old(slicebase(d.prefix)) || fresh(d.prefix)
 //@   ensures @untouched unchangedArray(data)
@@ -71,7 +79,7 @@ package tracer
 //@ func (*dataTracer).traceMessageLocked
 //@   requires wfTracer(d) && d.isStreamProtocol && held[d.mu] && d.expecting > 0 && len(data) > 0
 //@   modifies dataTracer.env, dataTracer.expecting, dataTracer.actual, dataTracer.endStream, bufContent,
-//@            evN, evKind, evLen, evEnv, builder.*, RequestBodyData.*, ResponseBodyData.*, ResponseBodyEndStream.*, eventOffset.*, []Event, http.Request.*
+//@            ghosts:cpl*, held, Trace.*, evN, evKind, evLen, evEnv, builder.*, RequestBodyData.*, ResponseBodyData.*, ResponseBodyEndStream.*, eventOffset.*, []Event, http.Request.*
 //@   ensures wfTracer(d) && held[d.mu]
 //@   ensures @need result_0 == old(d.expecting) - old(d.actual)
 //@   ensures @partial !result_1 ==> len(data) < result_0 && d.actual == old(d.actual) + len(data) && d.expecting == old(d.expecting) && d.env == old(d.env) && evN[d.builder] == old(evN[d.builder])
@@ -93,7 +101,7 @@ package tracer
 //@   requires wfTracer(d) && !held[d.mu]
 //@   requires len(data) > 0 ==> slicebase(data) != slicebase(d.prefix) //# the tracer's private prefix buffer is not the caller's buffer
 //@   modifies trS, held, dataTracer.prefix, dataTracer.env, dataTracer.expecting, dataTracer.actual, dataTracer.endStream, []byte, Envelope.*, bufContent,
-//@            evN, evKind, evLen, evEnv, builder.*, RequestBodyData.*, ResponseBodyData.*, ResponseBodyEndStream.*, eventOffset.*, []Event, http.Request.*
+//@            ghosts:cpl*, held, Trace.*, evN, evKind, evLen, evEnv, builder.*, RequestBodyData.*, ResponseBodyData.*, ResponseBodyEndStream.*, eventOffset.*, []Event, http.Request.*
 //@   assume_ensures trS == old(trS)[d := old(trS[d]) + bytes(data)] //# ghost bookkeeping: the byte stream seen by this tracer
 //@   ensures wfTracer(d) && !held[d.mu]
 //@   ensures @events evN[d.builder] >= old(evN[d.builder])
@@ -112,7 +120,7 @@ package tracer
 //@ func (*dataTracer).emitUnfinished
 //@   requires wfTracer(d) && !held[d.mu]
 //@   modifies held, dataTracer.prefix, dataTracer.env, dataTracer.expecting, dataTracer.actual, dataTracer.endStream,
-//@            evN, evKind, evLen, evEnv, builder.*, RequestBodyData.*, ResponseBodyData.*, eventOffset.*, []Event, http.Request.*
+//@            ghosts:cpl*, held, Trace.*, evN, evKind, evLen, evEnv, builder.*, RequestBodyData.*, ResponseBodyData.*, eventOffset.*, []Event, http.Request.*
 //@   ensures wfTracer(d) && !held[d.mu]
 //@   ensures @idle d.expecting == 0 && d.actual == 0 && len(d.prefix) == 0 && d.env == nil && d.endStream == nil
 //@   ensures @atmostone evN[d.builder] >= old(evN[d.builder]) && evN[d.builder] <= old(evN[d.builder]) + 1
@@ -136,7 +144,7 @@ package tracer
 //@ func (*tracingReader).tryFinish
 //@   requires t != nil && t.builder != nil && t.whenDone != nil && wfTracer(t.dataTracer) && !held[t.dataTracer.mu] && t.dataTracer.builder == t.builder
 //@   modifies atomicBoolV, held, dataTracer.prefix, dataTracer.env, dataTracer.expecting, dataTracer.actual, dataTracer.endStream,
-//@            evN, evKind, evLen, evEnv, builder.*, RequestBodyData.*, ResponseBodyData.*, RequestBodyEnd.*, ResponseBodyEnd.*, eventOffset.*, []Event, http.Request.*
+//@            ghosts:cpl*, held, Trace.*, evN, evKind, evLen, evEnv, builder.*, RequestBodyData.*, ResponseBodyData.*, RequestBodyEnd.*, ResponseBodyEnd.*, eventOffset.*, []Event, http.Request.*
 //@   ensures atomicBoolV[t.closed] && wfTracer(t.dataTracer) && !held[t.dataTracer.mu]
 //@   ensures @once old(atomicBoolV[t.closed]) ==> evN[t.builder] == old(evN[t.builder])
 //@   ensures @bodyend !old(atomicBoolV[t.closed]) ==> evN[t.builder] >= old(evN[t.builder]) + 1 && evN[t.builder] <= old(evN[t.builder]) + 2 &&
@@ -148,7 +156,7 @@ package tracer
 //@   requires t != nil && t.reader != nil && t.builder != nil && t.whenDone != nil && wfTracer(t.dataTracer) && !held[t.dataTracer.mu] && t.dataTracer.builder == t.builder
 //@   requires slicebase(data) != slicebase(t.dataTracer.prefix) //# the tracer's private prefix buffer is not the caller's buffer
 //@   modifies trS, []byte, lastReadN, lastReadErr, lastReadArr, atomicBoolV, held, dataTracer.prefix, dataTracer.env, dataTracer.expecting, dataTracer.actual, dataTracer.endStream,
-//@            Envelope.*, bufContent, evN, evKind, evLen, evEnv, builder.*, RequestBodyData.*, ResponseBodyData.*, ResponseBodyEndStream.*, RequestBodyEnd.*, ResponseBodyEnd.*, eventOffset.*, []Event, http.Request.*
+//@            Envelope.*, bufContent, ghosts:cpl*, held, Trace.*, evN, evKind, evLen, evEnv, builder.*, RequestBodyData.*, ResponseBodyData.*, ResponseBodyEndStream.*, RequestBodyEnd.*, ResponseBodyEnd.*, eventOffset.*, []Event, http.Request.*
 //@   ensures @passthrough n == lastReadN[t.reader] && err == lastReadErr[t.reader] && arrayof(data) == lastReadArr[t.reader]
 //@   ensures @traced trS[t.dataTracer] == old(trS[t.dataTracer]) + bytes(data[:n])
 //@   ensures wfTracer(t.dataTracer) && !held[t.dataTracer.mu]
@@ -157,7 +165,7 @@ package tracer
 //@ func (*tracingReader).Close
 //@   requires t != nil && t.reader != nil && t.builder != nil && t.whenDone != nil && wfTracer(t.dataTracer) && !held[t.dataTracer.mu] && t.dataTracer.builder == t.builder
 //@   modifies atomicBoolV, held, dataTracer.prefix, dataTracer.env, dataTracer.expecting, dataTracer.actual, dataTracer.endStream,
-//@            evN, evKind, evLen, evEnv, builder.*, RequestBodyData.*, ResponseBodyData.*, RequestBodyEnd.*, ResponseBodyEnd.*, eventOffset.*, []Event, http.Request.*
+//@            ghosts:cpl*, held, Trace.*, evN, evKind, evLen, evEnv, builder.*, RequestBodyData.*, ResponseBodyData.*, RequestBodyEnd.*, ResponseBodyEnd.*, eventOffset.*, []Event, http.Request.*
 //@   ensures atomicBoolV[t.closed]
 
 // (GetDecompressor: see zz_tracer_verif.go)
@@ -177,7 +185,7 @@ package tracer
 //@ func (*tracingResponseWriter).WriteHeader
 //@   requires wfWriter(t) && !held[t.dataTracer.mu]
 //@   modifies ghosts:*Src, tracingResponseWriter.*, dataTracer.*, http.Response.*, map[string][]string, []string, bufContent, rwStatusN, rwStatus,
-//@            evN, evKind, evLen, evEnv, builder.*, eventOffset.*, []Event, http.Request.*, ResponseStart.*, RequestBodyData.*, ResponseBodyData.*
+//@            ghosts:cpl*, held, Trace.*, evN, evKind, evLen, evEnv, builder.*, eventOffset.*, []Event, http.Request.*, ResponseStart.*, RequestBodyData.*, ResponseBodyData.*
 //@   ensures wfWriter(t) && t.started && !held[t.dataTracer.mu] && t.finished == old(t.finished)
 //@   ensures @stable t.respWriter == old(t.respWriter) && t.req == old(t.req) && t.builder == old(t.builder)
 //@   ensures @ownbuffer old(t.started) ? t.dataTracer.prefix == old(t.dataTracer.prefix) : t.dataTracer.prefix == nil
@@ -196,7 +204,7 @@ package tracer
 //@   requires wfWriter(t) && !held[t.dataTracer.mu]
 //@   requires slicebase(data) != slicebase(t.dataTracer.prefix) //# the tracer's private prefix buffer is not the caller's buffer
 //@   modifies ghosts:*Src, trS, tracingResponseWriter.*, dataTracer.*, http.Response.*, map[string][]string, []string, []byte, bufContent, Envelope.*, held, lastWriteN, lastWriteErr, wrOut, rwStatusN, rwStatus,
-//@            evN, evKind, evLen, evEnv, builder.*, eventOffset.*, []Event, http.Request.*, ResponseStart.*, RequestBodyData.*, ResponseBodyData.*, ResponseBodyEndStream.*, ResponseBodyEnd.*
+//@            ghosts:cpl*, held, Trace.*, evN, evKind, evLen, evEnv, builder.*, eventOffset.*, []Event, http.Request.*, ResponseStart.*, RequestBodyData.*, ResponseBodyData.*, ResponseBodyEndStream.*, ResponseBodyEnd.*
 //@   ensures @passthrough result_0 == lastWriteN[t.respWriter] && result_1 == lastWriteErr[t.respWriter]
 //@   ensures @untouched unchangedArray(data)
 //@   ensures @traced trS[t.dataTracer] == old(trS[t.dataTracer]) + bytes(data[:result_0])
@@ -208,7 +216,7 @@ package tracer
 //@ func (*tracingResponseWriter).tryFinish
 //@   requires wfWriter(t) && !held[t.dataTracer.mu]
 //@   modifies ghosts:*Src, tracingResponseWriter.*, dataTracer.*, http.Response.*, map[string][]string, []string, bufContent, held, rwStatusN, rwStatus,
-//@            evN, evKind, evLen, evEnv, builder.*, eventOffset.*, []Event, http.Request.*, ResponseStart.*, RequestBodyData.*, ResponseBodyData.*, ResponseBodyEnd.*
+//@            ghosts:cpl*, held, Trace.*, evN, evKind, evLen, evEnv, builder.*, eventOffset.*, []Event, http.Request.*, ResponseStart.*, RequestBodyData.*, ResponseBodyData.*, ResponseBodyEnd.*
 //@   ensures t.finished && t.started && wfWriter(t) && !held[t.dataTracer.mu]
 //@   ensures @stable t.respWriter == old(t.respWriter) && t.req == old(t.req) && t.builder == old(t.builder)
 //@   ensures @once old(t.finished) ==> evN[t.builder] == old(evN[t.builder])
